@@ -11,7 +11,7 @@ import random
 from sim import refcodec as rc
 
 FAMILIES = ("general", "publisher", "subscriber", "subreq", "silence", "qos2", "window", "clean", "persistent",
-            "handshake", "gate", "keepalive", "hostile", "ids", "closing", "args", "wire")
+            "handshake", "gate", "keepalive", "hostile", "ids", "closing", "args", "wire", "resume")
 
 ALPH = ["a", "b", "/", "x", "é", "€", "\U0001F600", "0", "Z", "ñ"]
 
@@ -31,6 +31,8 @@ def make_config(rng, family):
     cfg["profile"] = _w(rng, [(3, 5), (2, 3), (1, 3)])
     if family in ("publisher", "silence", "qos2", "window", "persistent", "clean", "ids"):
         cfg["profile"] = _w(rng, [(3, 4), (2, 4)])
+    if family == "resume":
+        cfg["profile"] = _w(rng, [(3, 5), (2, 4), (1, 1)])
     if family in ("subscriber", "subreq"):
         cfg["profile"] = _w(rng, [(3, 4), (1, 4)])
     cfg["version"] = _w(rng, [(4, 6), (3, 4)])
@@ -39,6 +41,8 @@ def make_config(rng, family):
         cfg["session"] = "clean"
     if family in ("persistent", "qos2"):
         cfg["session"] = _w(rng, [("persistent", 6), ("mixed", 2)])
+    if family == "resume":
+        cfg["session"] = "mixed"
     cfg["keepalive"] = _w(rng, [(0, 6), (1, 1), (2, 1), (5, 2), (60, 1), (65535, 1)])
     if family == "keepalive":
         cfg["keepalive"] = _w(rng, [(0, 1), (1, 2), (2, 2), (5, 3), (60, 2), (65535, 1), (rng.randint(1, 65535), 2)])
@@ -61,7 +65,7 @@ def make_config(rng, family):
     cfg["payload_class"] = _w(rng, [("tiny", 8), ("small", 3), ("b127", 1), ("b16k", 0.5 if family != "wire" else 3),
                                     ("b2m", 0.0 if family != "wire" else 0.3)])
     cfg["chunking"] = _w(rng, [("whole", 6), ("random", 3), ("bytes", 1)])
-    cfg["coalesce"] = rng.random() < 0.3
+    cfg["coalesce"] = rng.random() < (0.45 if family in ("subreq", "subscriber", "qos2") else 0.3)
     cfg["faults"] = {
         "close": rng.random() < 0.7,
         "dup_ack": rng.random() < 0.6,
@@ -69,7 +73,7 @@ def make_config(rng, family):
         "stall": rng.random() < (0.15 if family not in ("keepalive",) else 0.0),
         "closing_activity": rng.random() < (0.8 if family == "closing" else 0.4),
         "raw": family == "hostile" or rng.random() < 0.05,
-        "reentrant": rng.random() < 0.3,
+        "reentrant": rng.random() < (0.7 if family == "resume" else 0.3),
         "stale_handle": rng.random() < 0.4,
         "alias": rng.random() < 0.3,
         "burst": rng.random() < (0.25 if family in ("window", "publisher", "general", "clean", "persistent") else 0.05),
@@ -194,6 +198,115 @@ class Gen(object):
                 st["then"] = then
         return st
 
+    def resume_script(self, addr):
+        """Family `resume`: a scripted opening - a first connection that leaves requests in
+        every stage (sent, half-acknowledged, held back), its end, a second protocol for the
+        same address that connects persistent or clean, requests before its CONNACK - with
+        seeded choices and application reactions; the state-aware generator then takes over.
+        Steps that do not apply are no-ops."""
+        rng, cfg = self.rng, self.cfg
+        prof = cfg["profile"]
+        vv = {"$": "v31"} if cfg["version"] == 3 else {"$": "v311"}
+        re = cfg["faults"]["reentrant"]
+
+        def react(st, whens):
+            if re and rng.random() < 0.4:
+                what = rng.choice(["disconnect", "disconnect", "publish", "subscribe", "unsubscribe", "connect"])
+                if what == "publish" and not prof & 2:
+                    what = "subscribe"
+                if what in ("subscribe", "unsubscribe") and not prof & 1:
+                    what = "publish" if prof & 2 else "disconnect"
+                st["then"] = [self.reaction(addr, what, rng.choice(whens))]
+            return st
+
+        def pub(q=None):
+            q = rng.choice([1, 2, 2, 1, 0]) if q is None else q
+            return react({"op": "app.call", "addr": addr, "m": "publish",
+                          "k": {"topic": gen_topic(rng), "message": gen_text(rng, rng.randint(0, 4)), "qos": q}},
+                         ["err", "err", "any", "ok"])
+
+        def conn(clean):
+            return {"op": "app.call", "addr": addr, "m": "connect", "a": ["res"],
+                    "k": {"cleanStart": clean, "keepalive": cfg["keepalive"], "version": vv}}
+        out = [{"op": "app.build", "addr": addr, "on_pub": cfg["handlers"][0], "on_disc": cfg["handlers"][1], "on_made": cfg["handlers"][2]}]
+        w1 = rng.choice([1, 1, 2, 3])
+        if w1 != 1:
+            out.append({"op": "app.call", "addr": addr, "m": "setWindowSize", "a": [w1]})
+        if cfg["timeout"] is not None:
+            out.append({"op": "app.call", "addr": addr, "m": "setTimeout", "a": [cfg["timeout"]]})
+        out.append(conn(rng.random() < 0.2))
+        pre1 = rng.random() < 0.3
+        if pre1 and prof & 2:
+            out.append(pub())
+        out.append({"op": "brk.connack", "addr": addr, "rc": 0})
+        last_ack_disconnects = False
+        if prof & 2:
+            npub = rng.randint(1, 4)
+            for i_ in range(npub):
+                st_ = pub()
+                if i_ == 0 and npub > 1 and st_["k"]["qos"] and rng.random() < 0.25:
+                    # the acknowledgement of the only message in flight makes the application
+                    # disconnect while others are still held back
+                    st_["then"] = [self.reaction(addr, "disconnect", "ok")]
+                    last_ack_disconnects = st_["k"]["qos"]
+                out.append(st_)
+        if last_ack_disconnects:
+            if last_ack_disconnects == 1:
+                out.append({"op": "brk.ack", "addr": addr, "kind": "PUBACK", "ref": 0})
+            else:
+                out.append({"op": "brk.ack", "addr": addr, "kind": "PUBREC", "ref": 0})
+                out.append({"op": "brk.ack", "addr": addr, "kind": "PUBCOMP", "ref": 0})
+            out.append({"op": "net.finish_close", "addr": addr})
+        if prof & 1:
+            for _ in range(rng.randint(0, 2)):
+                out.append(react({"op": "app.call", "addr": addr, "m": rng.choice(["subscribe", "unsubscribe"]),
+                                  "a": [gen_topic(rng, True)]}, ["ok", "err", "any"]))
+            if rng.random() < 0.5:
+                out.append({"op": "brk.publish", "addr": addr, "qos": 2, "topic": gen_topic(rng), "payload": "in", "id": rng.choice([1, 2, 7])})
+        r = rng.random()
+        if r < 0.5:
+            out.append({"op": "brk.ack", "addr": addr, "kind": "PUBREC", "ref": 0})
+        elif r < 0.7:
+            out.append({"op": "brk.ack", "addr": addr, "kind": "PUBACK", "ref": 0})
+        if rng.random() < 0.25:
+            out.append({"op": "time.fire", "tie": 0})
+        # the first connection ends
+        how = rng.choice(["fin", "rst", "disconnect", "fin"])
+        if how == "disconnect":
+            out.append({"op": "app.call", "addr": addr, "m": "disconnect"})
+            out.append({"op": "net.finish_close", "addr": addr})
+        else:
+            out.append({"op": "net.close", "addr": addr, "kind": how, "drop": rng.random() < 0.3})
+        # the second protocol
+        out.append({"op": "app.build", "addr": addr, "on_pub": cfg["handlers"][0], "on_disc": cfg["handlers"][1], "on_made": cfg["handlers"][2]})
+        w2 = rng.choice([1, 1, 2, 4, 16])
+        if w2 != 1:
+            out.append({"op": "app.call", "addr": addr, "m": "setWindowSize", "a": [w2]})
+        if rng.random() < 0.15:
+            out.append(self.bad_connect(addr))          # refused up front: must leave no trace
+        out.append(conn(rng.random() < 0.5))
+        if prof & 2:
+            for _ in range(rng.randint(0, 2)):
+                out.append(pub())
+        if rng.random() < 0.3:
+            # the second connection never gets its CONNACK; a third protocol takes over
+            out.append({"op": "net.close", "addr": addr, "kind": rng.choice(["fin", "rst"]), "drop": rng.random() < 0.3})
+            out.append({"op": "app.build", "addr": addr, "on_pub": cfg["handlers"][0], "on_disc": cfg["handlers"][1],
+                        "on_made": cfg["handlers"][2]})
+            if rng.random() < 0.5:
+                out.append({"op": "app.call", "addr": addr, "m": "setWindowSize", "a": [rng.choice([2, 4, 16])]})
+            out.append(conn(rng.random() < 0.3))
+        ck = {"op": "brk.connack", "addr": addr, "rc": 0 if rng.random() < 0.9 else rng.randint(1, 5), "sp": rng.random() < 0.5}
+        if rng.random() < 0.3:
+            ck["dl"] = False
+        out.append(ck)
+        if rng.random() < 0.4:
+            # acknowledgements of what was re-sent, old timers
+            out.append({"op": "brk.ack", "addr": addr, "kind": rng.choice(["PUBREC", "PUBACK"]), "ref": 0})
+            out.append({"op": "time.fire", "tie": rng.randint(0, 2)})
+            out.append({"op": "time.fire", "tie": 0})
+        return out
+
     def reaction(self, addr, what, when):
         """An API call the application makes from inside a callback."""
         rng = self.rng
@@ -230,10 +343,10 @@ class Gen(object):
             del st["k"]["qos"]          # documented default
         if h:
             st["h"] = h
-        if cfg["faults"]["reentrant"] and rng.random() < (0.3 if self.fam == "ids" else 0.15) and qos > 0:
+        if cfg["faults"]["reentrant"] and rng.random() < (0.3 if self.fam == "ids" else 0.2) and qos > 0:
             if rng.random() < (0.5 if self.fam == "ids" else 0.25):
                 st["then"] = [self.reaction(addr, "disconnect", "ok")]
-            elif rng.random() < 0.3:
+            elif rng.random() < 0.45:
                 # whatever the application does when a publish fails (the failure may come from
                 # another connection to the same address than the one it acts on)
                 st["then"] = [self.reaction(addr, rng.choice(["disconnect", "disconnect", "subscribe", "unsubscribe", "connect"]),
@@ -264,7 +377,8 @@ class Gen(object):
             st["h"] = h
         if self.cfg["faults"]["reentrant"] and rng.random() < 0.25:
             # the application reacts to the outcome from inside the callback
-            nxt = rng.choice(["subscribe", "subscribe", "unsubscribe", "publish", "disconnect"])
+            nxt = rng.choice(["subscribe", "subscribe", "unsubscribe", "publish", "disconnect"]
+                             + (["disconnect", "disconnect"] if self.cfg.get("coalesce") else []))
             if nxt == "disconnect":
                 st["then"] = [self.reaction(addr, "disconnect", rng.choice(["ok", "ok", "err", "any"]))]
             if nxt == "subscribe":
@@ -342,6 +456,8 @@ class Gen(object):
 
     def next(self, w, L):
         self.n += 1
+        if self.fam == "resume" and self.n == 1:
+            self._queue = self.resume_script(self.addrs[0])
         if getattr(self, "_queue", None):
             return self._queue.pop(0)
         rng, cfg = self.rng, self.cfg
@@ -542,20 +658,27 @@ class Gen(object):
         if getattr(self, "_burst", 0) > 0 and P:
             self._burst -= 1
             return self.publish_step(addr, qos=0 if rng.random() < 0.9 else rng.randint(1, 2))
-        if F.get("burst") and P and s.fifo and rng.random() < 0.04:
+        if F.get("burst") and P and s.fifo and rng.random() < (0.09 if fam == "window" else 0.04):
             # a long run of publishes while earlier ones are still held back
             self._burst = rng.choice([8, 17, 33, 40])
         if F.get("alias") and w.payload_refs and rng.random() < 0.08:
             return {"op": "sim.mutate", "i": rng.randint(0, 2), "n": rng.choice([1, 5, 30])}
-        if fam == "ids" and not getattr(self, "_placed", False) and any(r.pending for r in s.reqs) and rng.random() < 0.3:
-            self._placed = True
+        if fam == "ids" and getattr(self, "_placed", 0) < 3 and any(r.pending for r in s.reqs) \
+                and rng.random() < (0.3 if not getattr(self, "_placed", 0) else 0.08):
+            self._placed = getattr(self, "_placed", 0) + 1
             pend = sorted(r.msgId for a_ in sorted(L.sess) for r in L.sess[a_].reqs
                           if r.pending and isinstance(r.msgId, int))
             held = sorted(r.msgId for a_ in sorted(L.sess) for r in L.sess[a_].reqs
                           if r.pending and isinstance(r.msgId, int) and not r.tx)
-            if held and rng.random() < 0.5:
+            rel = sorted(r.msgId for a_ in sorted(L.sess) for r in L.sess[a_].reqs
+                         if r.pending and isinstance(r.msgId, int) and r.rel_tx)
+            r_ = rng.random()
+            if held and r_ < 0.4:
                 # ... an identifier that so far only sits in a queue of held-back messages
                 pend = held
+            elif rel and r_ < 0.7:
+                # ... or one whose PUBLISH is done with and whose PUBREL awaits PUBCOMP
+                pend = rel
             if pend and rng.random() < 0.5:
                 # the counter as it stands one full cycle later, right before an identifier still in use
                 tgt = rng.choice(pend)
